@@ -11,6 +11,7 @@ use crate::{
     store::Store,
     utils::{self, consts},
 };
+use crate::sync::Mutex;
 use std::{sync::Arc, time::Duration};
 
 #[derive(Debug, Clone)]
@@ -21,6 +22,9 @@ pub struct Runtime {
     cache: Arc<Cache>,
     emitter: Arc<Emitter>,
     package: Arc<Package>,
+    // the check for a duplicate process id and the registration of the new process belong
+    // together: processes are started one at a time
+    starting: Arc<Mutex<()>>,
 }
 
 impl Runtime {
@@ -81,6 +85,7 @@ impl Runtime {
             // the pid will use as the proc_id
             proc_id = pid.to_string();
         }
+        let _starting = self.starting.lock().unwrap();
         let proc = self.cache.proc(&proc_id, self);
         if proc.is_some() {
             return Err(ActError::Action(format!(
@@ -175,6 +180,7 @@ impl Runtime {
             env,
             cache,
             package,
+            starting: Arc::new(Mutex::new(())),
         });
 
         runtime.initialize(config);
